@@ -37,7 +37,10 @@ Definition run_case0 (md : mode) (comp : N) (c : sx) : list ev :=
 
 (* components 100 + k (C14): the case of component k observed through every sink; the harness appends the number of sinks
    whose observations differed from the plain vector's, the model expects 0 *)
+(* component 200 (C14): comparisons made inside the harness on structures built from the derived Default (raw form =
+   serialised form, u8sum = sum, tables fed through add_structure stay consistent): one number, the failures; 0 expected *)
 Definition run_case (md : mode) (comp : N) (c : sx) : list ev :=
+  if 200 <=? comp then [EvNum 0] else
   if 100 <=? comp then run_case0 md (comp - 100) c ++ [EvNum 0] else run_case0 md comp c.
 
 Definition spec_of (comp : N) : tspec :=
